@@ -1,1 +1,4 @@
+import PylxProofs.BasicLemmas
 import PylxProofs.C20
+import PylxProofs.C11
+import PylxProofs.C17
